@@ -24,9 +24,9 @@ func c01Case(c *runner.Ctx) (docs []*model.MDoc, mode uint32, shape string) {
 	case c.Idx == 2 || c.Idx == 3:
 		sch := gen.GenSchema(r)
 		return gen.GenBatch(r, sch, 126+c.Idx, "blk", gen.DocOpts{Repeat: true}), gen.SmallModes[r.Intn(len(gen.SmallModes))], "block-edge"
-	case c.Idx == 4 || c.Idx == 5 || (thorough && c.Idx < 40):
+	case c.Idx%400 == 4 || c.Idx%400 == 5:
 		n := 2200 + r.Intn(900)
-		if thorough && c.Idx%4 == 0 {
+		if thorough && c.Idx%800 == 4 {
 			n = 4000 + r.Intn(1200)
 		}
 		docs, _ := gen.JumboBatch(r, n, fmt.Sprintf("j%d", c.Idx))
@@ -110,7 +110,7 @@ func init() {
 		Assumptions: InputContract,
 		Phases: []runner.Phase{{
 			Name:  "model",
-			Cases: cases(1500, 40000),
+			Cases: cases(15000, 400000),
 			Run:   c01Run,
 		}},
 		Floors: func(tier string) map[string]int64 {
